@@ -165,7 +165,7 @@ impl PropImpl for C01 {
         vec!["inputs are valid UTF-8 (&str API); Read-based entry points are fed the same bytes".into()]
     }
     fn expected_labels(&self) -> Vec<&'static str> {
-        vec!["linestart/KEYCH", "linestart/MULTIBYTE", "linestart/CTRL", "linestart/DASH", "linestart/COLON", "linestart/HASH", "linestart/SP", "linestart/TAB", "linestart/LF", "linestart/CR", "afterindent/HASH", "afterindent/COLON", "afterindent/MULTIBYTE", "inkey/COLON", "inkey/MULTIBYTE", "inkey/CR", "invalue/CR", "invalue/MULTIBYTE", "incomment/CR", "tolerant-reader-reports-errors", "error-free", "origin:mutated-doc"]
+        vec!["linestart/KEYCH", "linestart/MULTIBYTE", "linestart/CTRL", "linestart/DASH", "linestart/COLON", "linestart/HASH", "linestart/SP", "linestart/TAB", "linestart/LF", "linestart/CR", "afterindent/HASH", "afterindent/COLON", "afterindent/MULTIBYTE", "inkey/COLON", "inkey/MULTIBYTE", "inkey/CR", "invalue/CR", "invalue/MULTIBYTE", "incomment/CR", "tolerant-reader-reports-errors", "error-free", "origin:mutated-doc", "origin:multi-byte-character-across-a-block-boundary"]
     }
     fn budget(&self, tier: Tier) -> Budget {
         Budget { cases_per_lane: if tier == Tier::Quick { 20000 } else { 100_000 }, tape_max: 600, cpu_s: 10 }
@@ -181,6 +181,30 @@ impl PropImpl for C01 {
         Some(Case { text: t.to_string(), origin: "text" })
     }
     fn decode(&self, ctx: &mut Ctx, t: &mut Tape) -> Case {
+        if t.chance(1, 40) {
+            // (B) a long document with a multi-byte character across a power-of-two byte offset: readers that take their
+            // input from an io::Read in blocks must not decode the blocks separately
+            let block = *t.pick(&[512usize, 1024, 4096, 8192, 16384, 65536]);
+            let k = t.range(1, 3);
+            let back = t.range(1, 3);
+            let c = *t.pick(&["é", "€", "😀", "\u{2011}"]);
+            let mut text = String::from("A: ");
+            let filler = *t.pick(&["x", "y z", "ab\n "]);
+            while text.len() + back < block * k {
+                let room = block * k - back - text.len();
+                if room >= filler.len() {
+                    text.push_str(filler);
+                } else {
+                    text.push_str(&"w"[..].repeat(room));
+                }
+            }
+            // `back` bytes before the boundary: the character (2-4 bytes) usually straddles it
+            for _ in 0..t.range(1, 3) {
+                text.push_str(c);
+            }
+            text.push_str("\nB: c\n");
+            return Case { text, origin: "block-boundary" };
+        }
         if t.flag() {
             // (M) mutated well-formed document
             let d = doc::gen_doc(t, &doc::DocOpts::default());
@@ -201,6 +225,7 @@ impl PropImpl for C01 {
             "enum" => "origin:enum",
             "mutated-doc" => "origin:mutated-doc",
             "text" => "origin:text",
+            "block-boundary" => "origin:multi-byte-character-across-a-block-boundary",
             _ => "origin:random",
         });
     }
